@@ -218,7 +218,7 @@ def uniq(sequence: ArrayT, key: object = None) -> list[object]:
     # to handle sequences containing unhashable objects, like dictionaries.
 
     # This is probably quite slow.
-    if key is not None:
+    if key is not None and not is_undefined(key):
         keys = []
         result = []
         for obj in sequence:
@@ -243,7 +243,7 @@ def uniq(sequence: ArrayT, key: object = None) -> list[object]:
 @sequence_filter
 def compact(sequence: ArrayT, key: object = None) -> list[object]:
     """Return a copy of _sequence_ with any nil values removed."""
-    if key is not None:
+    if key is not None and not is_undefined(key):
         try:
             return [itm for itm in sequence if _property(itm, key) is not None]
         except TypeError as err:
